@@ -1011,6 +1011,41 @@ func c06Run(r *engine.Run) {
 	})
 	base += int64(len(rr)) * 128
 
+	// long series: a thousand instances and more, no COUNT at all (the matcher must not stop looking after some
+	// fixed number of instances)
+	{
+		sh := r.Shard()
+		start := c06T0.Add(9 * time.Hour)
+		k := 0
+		for _, rule := range []string{"FREQ=DAILY;COUNT=1100", "FREQ=DAILY", "FREQ=DAILY;INTERVAL=2;COUNT=700"} {
+			n, step := 1100, 24*time.Hour
+			switch rule {
+			case "FREQ=DAILY":
+				n = 4000 // as many as the ranges below can reach
+			case "FREQ=DAILY;INTERVAL=2;COUNT=700":
+				n, step = 700, 48*time.Hour
+			}
+			var inst [][2]int64
+			for i := 0; i < n; i++ {
+				s0 := start.Add(time.Duration(i) * step)
+				inst = append(inst, [2]int64{s0.Unix(), s0.Add(time.Hour).Unix()})
+			}
+			obj := rComp{Name: "VCALENDAR", Props: []rProp{{Name: "VERSION", Value: "2.0"}}, Children: []rComp{{Name: "VEVENT", HasTime: true, Instances: inst,
+				Props: []rProp{{Name: "DTSTART", Value: c06fmt(start)}, {Name: "DURATION", Value: "PT1H"}, {Name: "RRULE", Value: rule}}}}}
+			for _, day := range []int{0, 500, 999, 1000, 1001, 1050, 1099, 1100, 1101, 1398, 1399, 1400, 2000, 3500} {
+				for _, hr := range [][2]int{{8, 9}, {9, 10}, {8, 12}, {10, 11}, {0, 24}} {
+					f := caldav.CompFilter{Name: "VCALENDAR", Comps: []caldav.CompFilter{{Name: "VEVENT", Start: c06T0.AddDate(0, 0, day).Add(time.Duration(hr[0]) * time.Hour), End: c06T0.AddDate(0, 0, day).Add(time.Duration(hr[1]) * time.Hour)}}}
+					w := c06Check(sh, "recurrence-long-series", base+int64(k), f, obj, fmt.Sprintf("rule=%s", rule))
+					sh.Outcome(fmt.Sprintf("recurrence-long/ref=%d", w))
+					sh.Nontrivial(fmt.Sprintf("S3L/%d", k))
+					k++
+				}
+			}
+		}
+		r.Merge(sh)
+		base += int64(k)
+	}
+
 	// sub-space 4: Filter() contract
 	pool := []rComp{objs[1], objs[2], objs[3], objs[5], objs[12]}
 	stepF := 7
